@@ -137,6 +137,14 @@ def first_per_case(mism):
     return first
 
 
+def steps_per_case(mism):
+    """every disagreeing step per case, in step order: {case: [(step, [(tag, det)...])...]}"""
+    per = {}
+    for case, step, tag, det in mism:
+        per.setdefault(case, {}).setdefault(step, []).append((tag, det))
+    return {c: sorted(d.items()) for c, d in per.items()}
+
+
 def case_text(shard_paths, case):
     """the Gallina definition of one case, cut out of its shard"""
     for p in shard_paths:
